@@ -104,6 +104,7 @@ ModelCall(c, pre, post, call, isStart) ==
        [] n \in {"fail", "failx", "badfail"} -> FinishedFailure(c, e, j)
        [] n \in {"cleanup", "badcleanup"} -> CleanupDone(c, e, j)
        [] n = "abort" -> AbortRemaining(c, e)
+       [] n = "reconsider" -> ReconsiderAll(c, e)
 ResClass(res) == IF res \in {"internal", "panic"} THEN "dead" ELSE res
 StepsOf(steps, what) ==
   LET sel == SelectSeq(steps, LAMBDA x : x[1] = what /\ x[4] # "Pruned")
